@@ -19,6 +19,10 @@ class Ret:
         self.term = term
 
 
+class RaisedInCallee(Exception):
+    """an inlined callee raises on every path: the calling statement does not complete"""
+
+
 class Ctx:
     """State shared by all frames of one symbolic run."""
 
@@ -149,6 +153,7 @@ class Frame:
         finally:
             self.ctx.frames.pop()
         final = out.term if isinstance(out, Ret) else (None if out == RAISE else NONE)
+        self.always_raises = out == RAISE and not self.pending
         for cond, term in reversed(self.pending):
             final = term if final is None else T.gamma(cond, term, final)
         self.result = final
@@ -197,7 +202,10 @@ class Frame:
         if m is None:
             self.ctx.opaque.append((f'statement {type(s).__name__}', self.where(s)))
             return FALL
-        return m(s)
+        try:
+            return m(s)
+        except RaisedInCallee:
+            return RAISE
 
     def st_Expr(self, s):
         if isinstance(s.value, ast.Constant):
